@@ -152,7 +152,9 @@ pub fn c16(a: &Args) -> Report {
         .into_par_iter()
         .map(|i| {
             let (d, sm) = (i / 2, i % 2 == 1);
-            let b = gen_with(&srcs[d], sm, vec![]);
+            // run 0 on a FRESH thread: no other definition was expanded on it before (no history)
+            let src0 = srcs[d].clone();
+            let b = std::thread::spawn(move || gen_with(&src0, sm, vec![])).join().unwrap();
             let b2 = gen_with(&srcs[d], sm, vec![]);
             let same = b.tokens == b2.tokens && b.graph == b2.graph && b.log == b2.log;
             (b, same)
@@ -780,8 +782,28 @@ pub fn replay(a: &Args, rec: &serde_json::Value) -> Report {
             let sm = r["sm"].as_bool().unwrap_or(false);
             let script: Script = serde_json::from_value(r["script"].clone()).unwrap_or_default();
             let src = spec.render("T", "");
-            let base = gen_with(&src, sm, vec![]);
-            let differs = if script.is_empty() {
+            let src_b = src.clone();
+            let base = std::thread::spawn(move || gen_with(&src_b, sm, vec![])).join().unwrap();
+            let differs = if r["history"].as_bool() == Some(true) {
+                // the whole corpus in both orders on one thread each; this definition's output must not change
+                let corpus = c16_corpus(Tier::Quick);
+                let mut found = false;
+                for rev in [false, true] {
+                    let srcs: Vec<String> = corpus.iter().map(|(_, s)| s.render("T", "")).collect();
+                    let target = src.clone();
+                    let outs: Vec<String> = std::thread::spawn(move || {
+                        let mut order: Vec<usize> = (0..srcs.len()).collect();
+                        if rev {
+                            order.reverse();
+                        }
+                        order.into_iter().filter_map(|d| { let t = gen_with(&srcs[d], sm, vec![]).tokens; if srcs[d] == target { Some(t) } else { None } }).collect()
+                    })
+                    .join()
+                    .unwrap();
+                    found |= outs.iter().any(|t| *t != base.tokens);
+                }
+                found
+            } else if script.is_empty() {
                 // nondeterminism the seams do not own: repeat in fresh threads (fresh hash seeds);
                 // canonical mode unless the record came from the real-seed sample
                 let canonical = !r["threads"].is_number();
